@@ -83,7 +83,7 @@ def main(argv=None):
     ap.add_argument('-v', action='store_true')
     a = ap.parse_args(argv)
     corpus = load_corpus()
-    sel = [v for v in corpus if (not a.props or v['prop'] in a.props) and (not a.only or v['id'] == a.only)]
+    sel = [v for v in corpus if (not a.props or v['prop'] in a.props) and (not a.only or v['id'] in a.only.split(','))]
     root = tempfile.mkdtemp(prefix='xrsa-selftest-')
     bad = 0
     try:
